@@ -110,6 +110,9 @@ func stdlibUser(t *rapid.T, i int) []val.V {
 	// a def inside a future body is local to that body: every program uses the SAME working name
 	src = append(src, fmt.Sprintf("(deref (future (do (def scratch %d) (sleep 2) (list scratch (+ scratch 1)))))", 10*(i+1)),
 		fmt.Sprintf("(let (fs (map (fn (j) (future (do (def scratch (+ %d j)) (sleep 1) scratch))) [1 2])) (map deref fs))", 100*(i+1)))
+	// … and so is a def inside a let body, also of a let that binds nothing
+	src = append(src, fmt.Sprintf("(let () (do (def scratch %d) (sleep 1) (list scratch (+ scratch 2))))", 1000*(i+1)),
+		fmt.Sprintf("(let [] (do (def scratch (fn (x) (+ x %d))) (sleep 1) (scratch 1)))", 1000*(i+1)))
 	// a memoized function is asked for the same argument by several futures while the first computation is still going on
 	src = append(src, fmt.Sprintf("(def %sslow-sq (memoize (fn (x) (do (sleep 3) (* x x))))) (map deref (list (future (%sslow-sq 7)) (future (%sslow-sq 7)) (future (do (sleep 1) (%sslow-sq 7)))))", p, p, p, p),
 		// a future started inside a nested let of a function body reads that function's parameter while the body goes on defining names
